@@ -1222,6 +1222,8 @@ static void union_initializer(Token **rest, Token *tok, Initializer *init) {
   }
 
   init->mem = init->ty->members;
+  if (!init->mem)
+    error_tok(tok, "initializer for a union that has no members");
 
   if (equal(tok, "{")) {
     initializer2(&tok, tok->next, init->children[0]);
